@@ -3,3 +3,54 @@
    the real hopSession.checkAuthorization over an in-memory tube muxer). *)
 From Hop Require Export Base Authz AuthzCorr.
 Definition c05_ok := authz_ok.
+
+(* ---- logins racing with each other and with grant additions (Model/LoginRace.v) ----
+   A case: the goroutines' programs (login u:k / AddAuthGrant of one grant for u:k; the grant's
+   serial is the goroutine's index), what each login got back from the real
+   HopServer.AuthorizeKeyAuthGrant when all goroutines ran at the same time, and a final probe of
+   the grant map and the transport key set.  The checker explores EVERY interleaving of the model
+   (each goroutine = its two critical sections) and accepts iff one of them ends in exactly the
+   observed results, map and key set. *)
+From Hop Require Export LoginRace.
+
+Inductive lp := LL (u : user) (k : key) | LA (u : user) (k : key) (g : gview).
+Fixpoint mk_lprogs (n : N) (l : list lp) : list lprog :=
+  match l with
+  | [] => []
+  | LL u k :: r => LLogin u k :: mk_lprogs (n + 1) r
+  | LA u k (t, s, e, c, p) :: r => LAdd u k (mkGrant n t s e c p) :: mk_lprogs (n + 1) r
+  end.
+
+Definition lresult (t : lprog * lpc) : option (list gview) :=
+  match t with (LLogin _ _, LDone (Some a)) => Some (map gv a) | _ => None end.
+Definition ores_eqb (a b : option (list gview)) : bool :=
+  match a, b with Some x, Some y => gviews_eqb x y | None, None => true | _, _ => false end.
+Definition lprobe_ok (s : lsh) (p : probe) : bool :=
+  match p with
+  | (u, k, gs, inset) =>
+      gviews_eqb (map gv (match ag_lookup (l_map s) (u, k) with Some l => l | None => [] end)) gs
+      && Bool.eqb (key_mem (l_keys s) k) inset
+  end.
+
+(* all maximal runs of the interleaving model *)
+Fixpoint explore (fuel : nat) (x : lst) : list lst :=
+  match fuel with
+  | O => [x]
+  | S f =>
+      match flat_map (fun i => match lstep x i with Some x' => [x'] | None => [] end)
+                     (seq 0 (List.length (lths x))) with
+      | [] => [x]
+      | nexts => flat_map (explore f) nexts
+      end
+  end.
+
+Definition lrace_case := (nat * list lp * list (option (list gview)) * list probe)%type.
+Definition c05_lrace_ok (c : lrace_case) : bool :=
+  match c with
+  | (pre, ps, results, probes) =>
+      (* the first [pre] goroutines (grant additions) ran to completion before the others started *)
+      let progs := mk_lprogs 0 ps in
+      existsb (fun x => beq_list ores_eqb (map lresult (lths x)) results
+                        && forallb (lprobe_ok (lshd x)) probes)
+              (explore (2 * List.length progs) (lrun_order progs (seq 0 pre)))
+  end.
